@@ -8,7 +8,7 @@ from nv import samplerlab as sl
 
 ACCESSORS = ['log_z', 'n_eff', 'eta', 'f_live', 'posterior', 'posterior_blobs',
              'posterior_dict', 'occupation', 'evidence', 'ess', 'ase',
-             'association', 'log_v_live']
+             'association']
 
 
 def call_accessor(s, name):
